@@ -6,6 +6,18 @@ HERE = os.path.dirname(os.path.dirname(os.path.abspath(__file__)))
 
 # id -> (level category, technique, level text, level note, design ref)
 CHECKS = {
+ "C03": ("model_checking", "explicit-state BFS by history replay over a real CryptoCore pair, history-only reference oracle",
+         "All schedules over {seal (<=5), deliver any sealed datagram (again), forge (raised counter), tick, rotate (new key id at receiver then sender)} up to depth 9 quick / 11 thorough per cipher, executed on real CryptoCore objects; every delivery's accept/reject verdict is compared with a threshold computed from the recorded history only, and in every reached state every datagram sealed so far plus a fresh one is probed. States are deduplicated on a canonical form (key classes, thresholds and counters as offsets, oracle ages); a dedup-off audit to a smaller depth must reach the same canonical states.",
+         "Trusted: ring AEAD authenticity; counters near byte-carry boundaries are covered by C04, not forced here. Node-level replay (interface writes k rounds later) is covered by C09's replay family.",
+         "DESIGN.md section 5 C03"),
+ "C06": ("exploration", "exhaustive enumeration of cipher-list configurations through real two-party handshakes against a reference selection rule",
+         "Every pair of unordered side descriptions (each cipher absent or present with a speed from the grid {0,1,2} quick / {0,1,2,3e38} thorough, plain flag) is expanded inside the case into ALL orderings of both lists x both initiators, each a real PeerCrypto handshake followed by probes; outcomes must agree across orderings/initiators and with the reference (plain iff both flags; a cipher maximising the slower side's speed; clean 'No common algorithms' failure iff no common cipher). Every single-byte edit of the cipher-list part of a genuine ping must be rejected without state change.",
+         "Trusted: the 20-line reference rule. Speeds outside the grid are assumed to behave like grid values with the same order relations (the code only compares speeds).",
+         "DESIGN.md section 5 C06"),
+ "C07": ("model_checking", "explicit-state BFS by history replay over two real PeerCrypto objects (rotation state + key slots) with invariant, probes and bounded fair extension",
+         "After a genuine handshake (both salted-hash orientations; aes128 deep, other ciphers shallower) all schedules over {120-tick rotation cycle at A, at B, deliver / duplicate / drop any of <= 4 in-flight rotation datagrams} are explored to depth 7 quick / 10 thorough on the real objects. After every transition: each end's current sealing slot holds, at the peer, a key with the same fingerprint; a probe sealed by each end opens at the other with the expected key id; from every state a loss-free extension of 6 rounds must change each end's sealing key at least twice in its last 4 rounds. Canonical states use relative message ids (preserving id mod 4), key classes and counter offsets; audited with dedup off.",
+         "Trusted: the canonical form (audited to depth 4/5). Two parties only; pool cap 4 (overflow = loss of the oldest datagram).",
+         "DESIGN.md section 5 C07"),
  "C20": ("exploration", "exhaustive per-option / pairwise (thorough: 3-wise) presence-combination enumeration through the real YAML and argv parsers and merge functions against a documented-defaults overlay",
          "For each of 35 options all four presence combinations (absent / file / command line / both) with distinct values in two value variants, all pairs of options x 15 combinations, and in the thorough tier all triples, are pushed through serde_yaml -> ConfigFile -> merge_file and argv -> structopt -> merge_args; the effective Config is compared field by field with a reference overlay written from vpncloud.adoc; each effective configuration is then round-tripped through into_config_file + YAML. The netmask function (its text is cut out of src/main.rs at build time) is run on every prefix length 0..=40 x 4 addresses and a list of malformed strings.",
          "Trusted: the hard-coded documented defaults and the option table in the harness. parse_ip_netmask is compiled from text extracted out of main.rs (main.rs cannot be a module); if the function is renamed the build fails as a machinery error.",
